@@ -59,7 +59,8 @@ pub mod verif_replay {
           if e[2].as_bool() == Some(true) {
             if let Some(d) = timeout {
               let capped = std::cmp::min(d, Duration::from_millis(2000));
-              std::thread::sleep(capped + Duration::from_millis(self.extra_ms));
+              let extra = e[3].as_u64().unwrap_or(self.extra_ms);
+              std::thread::sleep(capped + Duration::from_millis(extra));
             }
           }
           Ok(PollResult::TimedOut)
